@@ -37,14 +37,14 @@ type c07Style struct {
 }
 
 type c07Decor struct {
-	Kind   string `json:"kind"` // name, percentage, counters, total, current, inverted, elapsed, spinner, avgeta, avgspeed, ewmaeta, ewmaspeed
-	Text   string `json:"text"`
-	W      int    `json:"w"`
-	C      int    `json:"c"`
+	Kind   string   `json:"kind"` // name, percentage, counters, total, current, inverted, elapsed, spinner, avgeta, avgspeed, ewmaeta, ewmaspeed
+	Text   string   `json:"text"`
+	W      int      `json:"w"`
+	C      int      `json:"c"`
 	Wrap   []string `json:"wrap"` // outermost last: oncomplete, onabort, meta, oncompletemeta, onabortmeta, ocoa
-	Unit   int    `json:"unit"` // 0 none, 1 1024, 2 1000
-	Format string `json:"format"`
-	Append bool   `json:"append"`
+	Unit   int      `json:"unit"` // 0 none, 1 1024, 2 1000
+	Format string   `json:"format"`
+	Append bool     `json:"append"`
 }
 
 type c07Case struct {
